@@ -53,4 +53,15 @@ CHECKS = {
                 "returns the re-indented *current* section. Two known findings (ReST footer absorbed into the last :type/:rtype).",
         "technique": "Lean 4 proof (list prefix/suffix algebra over faithful string models) + exact differential correspondence",
     },
+    "C01": {
+        "text": "Lean theorems on character-level ports of set_default_doc / extract_default / _parse_out_default_and_doc: for every description in "
+                "an explicit decidable domain and every integer (non-negative and negative) and boolean, the emitted 'Defaults to' prose is "
+                "read back as the same value with the same Python type and the description is unchanged; with emit_default_doc=False nothing is "
+                "added; quoting laws. The model also contains the full three-style emitter and a ReST reference parser, tied to the code by "
+                "byte comparison of emitted docstrings and comparison of parsed views; the whole round trip is evaluated on the real code for "
+                "every generated interface x style x flags, with 12 narrowly-signed known findings.",
+        "note": "Partial: the whole-docstring round trip (C01_full) is observed, not proved; float/str/None/code defaults, Google and NumPy parsing "
+                "are covered by correspondence/oracle only. Assumed: textwrap.fill, literal_eval, float/repr. Trusted: Lean kernel + 3 axioms, the harness.",
+        "technique": "Lean 4 proof (substring-search and digit lemmas over faithful string models) + byte-exact differential correspondence + round-trip oracle",
+    },
 }
